@@ -48,7 +48,7 @@ def plan(tier):
     return {
         "level": "exploration",
         "shards": 16,
-        "budget_s": 40 if q else 900,
+        "budget_s": 40 if q else 800,
         "timeout_s": 600 if q else 3000,
         "jail": True,
         "min_nontrivial": 40 if q else 500,
@@ -296,6 +296,8 @@ def run_case(sh: Shard, R: Runner, case: dict) -> None:
                 env.kill_shells()
             shutil.rmtree(hbase, ignore_errors=True)
     finally:
+        if any(n in T.UNBALANCED for n in (case["src_name"], case["dst_name"], case["src_parent"], case["dst_parent"])):
+            env.kill_shells()  # a persistent shell may still sit inside an open quote: never reuse it
         for b in {sbase, dbase}:
             shutil.rmtree(b, ignore_errors=True)
         stray = set(os.listdir(sh.scratch)) - stray0
@@ -421,7 +423,7 @@ def run_shard(sh: Shard) -> None:
     R = Runner(sh)
     R.ensure_env()
     # the soft budget is counted from here: importing StreamFlow + building the context alone takes
-    # 3 s on an idle machine and up to 50 s on a loaded one
+    # 3 s on an idle machine and minutes on a saturated one
     deadline = time.time() + sh.plan["budget_s"]
     idx = sh.shard
     n = 0
